@@ -40,7 +40,7 @@ ANCHORS = [
 REQUIRED = ["greedy_allocations_judged", "rr_allocations_judged", "uncontrolled_judged", "continuous_grants_judged", "discrete_grants_judged",
             "grant_strictly_between_bounds", "grant_limited_by_constraint_continuous", "grant_limited_by_constraint_discrete",
             "rr_blocked_by_constraint", "preprocessing_observed", "sort:fcfs", "sort:lcfs", "sort:edf", "sort:llf", "sort:lrpt",
-            "positive_lower_bounds", "order_differs_from_arrival_order", "several_constraints_tight", "allocations_after_an_edit", "runs_on_predefined_sites"]
+            "positive_lower_bounds", "order_differs_from_arrival_order", "several_constraints_tight", "allocations_after_an_edit", "runs_on_predefined_sites", "runs_with_a_session_connected_before_the_start_and_overdue_at_period_0"]
 BUDGET_S = {"quick": 270, "thorough": 3300}
 EPS = 0.01
 
@@ -61,6 +61,15 @@ def cases(seed, tier):
                          unint=rng.random() < 0.35)
         d["sessions"] = gen.dense_sessions(rng, d["network"])
         d["recompute"] = []
+        if rng.random() < 0.15:
+            # a car that was already connected when the simulation window opens (negative arrival index, as acndata sessions that
+            # connect before `start` have) and is overdue from the first period on: estimated departure exactly period 0
+            s0_ = min(d["sessions"], key=lambda s_: s_["arrival"])
+            if len(d["sessions"]) >= 2 and any(s_["arrival"] >= 0 for s_ in d["sessions"] if s_ is not s0_) and \
+                    not any(s_["est_dep"] == 0 for s_ in d["sessions"] if s_ is not s0_) and not any(
+                    s_["station"] == s0_["station"] and s_ is not s0_ and s_["arrival"] <= s0_["arrival"] for s_ in d["sessions"]):
+                s0_["arrival"], s0_["est_dep"] = -rng.randint(1, 3), 0
+                d["overdue_at_0"] = True
         if rng.random() < 0.25:
             d["edits"] = gen.rand_edits(rng, d["network"], max(s_["departure"] for s_ in d["sessions"]))
         out.append({"desc": d, "T0": rng.choice([0, 0, 3, 6]), "pre_seed": rng.randrange(1 << 30)})
@@ -193,6 +202,8 @@ def run_case(case, obs):
     if ed is not None:
         ed.remove()
     obs.evals = 0
+    if d.get("overdue_at_0"):
+        obs.ev("runs_with_a_session_connected_before_the_start_and_overdue_at_period_0")
     if probe.exception is not None:
         obs.ev("run_raised_not_judged_here")  # C07's business (safety); allocations before the exception are still judged
     wit = dict(scenario=d, T0=T0)
